@@ -127,11 +127,26 @@ def run(ctx):
         if ctx.tier == "quick" and ctx.elapsed() > 45:
             ctx.notes.append("stopped after %d files (time budget)" % fs.drawn)
             break
-    ev = stats["windows"] + stats["slices"] + stats["indices"] + stats["eager_windows"]
+    # windows of DAQmx channels (per-scaler raw data): every offset / length against the slice of the eager scaler data
+    if len(violations) < 5:
+        import gen_daqmx
+        from props import C11
+        dstats = dict(files=0, decoded=0, windows=0, streams=0, cuts=0)
+        for _ in range(ctx.n(25, 600)):
+            dsegs = gen_daqmx.draw(ctx.rnd)
+            de = model.ask(gen_files.to_line(dsegs))
+            if not de.get("ok") or not de.get("wf"):
+                continue
+            _d, v = C11.check_file(ctx, model, nptdms, dsegs, bytes.fromhex(de["file"]), dstats)
+            violations += [x for x in v if x.replay.get("kind") == "daqmx-window"]
+            if len(violations) >= 5:
+                break
+        stats["daqmx_windows"] = dstats["windows"]
+    ev = stats["windows"] + stats["slices"] + stats["indices"] + stats["eager_windows"] + stats.get("daqmx_windows", 0)
     return dict(violations=violations, disagreements=disagreements,
                 coverage=dict(evaluations=ev, distinct_nontrivial=nontrivial,
                               rule=RULE_FILES + "; per channel: windows (off,len) over 0..n+2 incl. None, slices over [-n-2,n+2]∪{None} x steps "
-                                   "{None,±1,±2,±3,±n,0}, all integer indices in [-n-1,n] ascending then descending (cache), exhaustive for small channels; every third file additionally cut at 2 offsets inside its last segment's raw data with all requests; "
+                                   "{None,±1,±2,±3,±n,0}, all integer indices in [-n-1,n] ascending then descending (cache), exhaustive for small channels; windows of DAQmx scaler data on generated DAQmx files; every third file additionally cut at 2 offsets inside its last segment's raw data with all requests; "
                                    "distinct_nontrivial counts distinct multi-segment or multi-chunk files with data",
                               samples=samples, files=fs.drawn, requests=stats, feature_counts=dict(sorted(fs.feats.items()))))
 
